@@ -93,6 +93,32 @@ CHECKS = {
          "(exact for unsmoothed shapes, 4 ulp for smoothed).",
          "Finite set of baselines/profiles and lattice; 'same document' is JSON-value equality; deepcopy snapshots asserted faithful.",
          "DESIGN.md section 6, C01"),
+ "C10": ("exploration",
+         "deviation-bounded enumeration at every published threshold (span, coverage, per-month coverage, value defects) x classes x entry points; oracle = criteria evaluated independently from the input",
+         "class {daily, billing, hourly} x {baseline, reporting} x fuel x entry point/temperature feed x span N in {250,328,329,330,364,365,366,367,420} x "
+         "missing-day count m at floor/ceil(0.1N)+-1 x what is missing x placement; value defects (negative reading, 10xIQR spike, UTC index, off-cycle "
+         "read); per-month coverage at exactly 10% of 28/30/31-day months (hourly: by the hour); DST zones one day or more from the thresholds; empty "
+         "columns; temperature-only reporting; NaN billing reads. The set of disqualification criteria must equal the reference's "
+         "(refmodels/sufficiency.py: integers and Fractions on plain rows); warning-only conditions must be warnings.",
+         "Ambiguity bands (hourly truncated day totals, hourly feeds under daily meters, closing billing read, DST +-1 day) accept both verdicts and are counted in the evidence.",
+         "DESIGN.md section 6, C10"),
+ "C16": ("exploration",
+         "small-scope exhaustive: all (observed, predicted) series of length <= 3 over a 7-value alphabet x parameter counts; structured series; threshold-placed gates on real model objects; real fits",
+         "Every pair of series of length <= 2 (quick: length 3 over an exhaustive 5-value sub-alphabet; thorough: the full 7^6) over {0,1,3,-2,0.001,NaN,+inf} x "
+         "p in {1,2,5} through BaselineMetrics; structured series of 24-400 rows x contaminations through BaselineMetrics, ReportingMetrics (3 frequencies) "
+         "and CalTRACK ModelMetrics; every dumped field is compared with its textbook formula on the finite pairs (refmodels/metrics.py, Fractions/fsum, "
+         "1e-12), identities, undefined ratios; the hourly poor-fit gate at value*(1+-1e-6) on real HourlyModel objects; stored metrics of real "
+         "hourly/daily/billing fits vs predict(baseline).",
+         "Library's documented statistical conventions accepted (ddof 0, linear quantiles, PNRMSE by IQR); listed in evidence.assumptions.",
+         "DESIGN.md section 6, C16"),
+ "C17": ("exploration",
+         "deviation-bounded enumeration (d<=2, d<=3 on the shortest frame) of NaN cells, absent rows, duplicate rows, zeros and NaN runs at every hour of short frames and on a lattice of long ones; cell-by-cell oracle from the input",
+         "Base frames of 3/4/22/43/730 days (every branch of interpolate) x zones {UTC, Kolkata, Chicago, Sydney; Havana, Santiago keyed separately} with the "
+         "23/25-hour day first/mid/last x first/last supplied hour x fuel x ghi x class x index unit; deviations at EVERY hour of the short frames. "
+         "Gap-free whole-local-day index (zoneinfo arithmetic), supplied finite values bit-identical, flag == (not supplied and now present), no NaN "
+         "left unless the column was empty, first duplicate wins, caller's frame untouched.",
+         "Filled values are unconstrained beyond being non-NaN; Lord Howe (30-minute DST) not enumerated.",
+         "DESIGN.md section 6, C17"),
 }
 
 NOT_YET = {}
